@@ -54,6 +54,27 @@ Definition handle (req : sexp) : sexp :=
           end
       | _, _, _ => bad "expand"
       end
+  | SList (Atom "ctxops" :: c :: ops) =>
+      match ctx_of_sexp c,
+            opt_map_list (fun o => match o with
+                                   | SList [Atom k] =>
+                                       if k =? "push" then Some OPush
+                                       else if k =? "pop" then Some OPop else None
+                                   | SList [Atom k; n] =>
+                                       if k =? "get" then option_map OGet (opt_str n) else None
+                                   | SList [Atom k; n; v] =>
+                                       if k =? "def" then
+                                         match opt_str n, value_of_sexp v with
+                                         | Some n', Some v' => Some (ODef n' v')
+                                         | _, _ => None
+                                         end
+                                       else None
+                                   | _ => None
+                                   end) ops with
+      | Some c', Some ops' =>
+          tagged "gets" (map (sexp_of_outcome sexp_of_value) (run_cops c' ops'))
+      | _, _ => bad "ctxops"
+      end
   | SList [Atom "echo"; a] =>
       match value_of_sexp a with
       | Some va => sexp_of_value va
